@@ -356,13 +356,14 @@ def gen_constuse_design(rng):
   how = rng.choice(["global", "closure", "attr"])
   K = "s.K" if how == "attr" else "K"
   A, B = rng.choice([(4, 4), (8, 8), (3, 5), (1, 7)]); va, vb = rng.getrandbits(A), rng.getrandbits(B)
-  L = ["from pymtl3 import *", "@bitstruct", "class CUP:", f"  x: mk_bits({A})", f"  y: mk_bits({B})"]
+  # ( CUP is the type of the constant only - no port or wire has it; the struct-typed port is a CUQ )
+  L = ["from pymtl3 import *", "@bitstruct", "class CUP:", f"  x: mk_bits({A})", f"  y: mk_bits({B})", "@bitstruct", "class CUQ:", f"  x: mk_bits({A})", f"  y: mk_bits({B})"]
   if how == "global": L.append(f"K = mk_bits({W})({v})")
   L += ["class CUTop(Component):", "  def construct(s):",
         f"    s.i = InPort({iw}); s.a = InPort({W2}); s.o1 = OutPort(1); s.o2 = OutPort({W2}); s.o3 = OutPort({W2}); s.o4 = OutPort({A + B}); s.w = Wire({A + B})"]
   if how == "closure": L.append(f"    K = mk_bits({W})({v})")
   if how == "attr": L.append(f"    s.K = mk_bits({W})({v})")
-  L += [f"    d = CUP({va}, {vb})", f"    s.q = InPort(CUP); s.o5 = OutPort({B})", "    @update", "    def up():"]
+  L += [f"    d = CUP({va}, {vb})", f"    s.q = InPort(CUQ); s.o5 = OutPort({B})", "    @update", "    def up():"]
   # a struct-typed temporary whose field is read ( t = s.q; .. t.y .. )
   stt = rng.choice([["s.o5 @= s.q.y"], ["t = s.q", "s.o5 @= t.y"], ["t = s.q", f"s.o5 @= t.y + {rng.randrange(1, 1 << B)}"]])
   body = [f"s.o1 @= {K}[s.i]", f"s.o2 @= sext({K}, {W2}) + s.a", f"s.o3 @= sext({K}[s.i], {W2}) ^ s.a", "s.w @= d", "s.o4 @= s.w"]
